@@ -124,6 +124,15 @@ func (s *swamp) applyPatchExpiredOne(treasureObj treasure.Treasure, ops []msgpac
 
 	entry := PatchExpiredEntry{Key: treasureObj.GetKey()}
 
+	// The treasure was selected from the expiration index before its guard was taken. If another
+	// request deleted or shifted it in between, it is no longer the swamp's record for this key:
+	// saving it now would bring the deleted record back.
+	if s.beaconKey.Get(treasureObj.GetKey()) != treasureObj {
+		entry.Status = PatchStatusKeyNotFound
+		entry.ExpiredAt = expirationTimeAsTime(treasureObj.GetExpirationTime())
+		return entry
+	}
+
 	switch treasureObj.GetContentType() {
 	case treasure.ContentTypeByteArray:
 		// proceed below
